@@ -219,7 +219,7 @@ def structural(tier, res):
     bad = [n for n in ast.walk(fi.node) if isinstance(n, (ast.Break, ast.Continue))]
     rets = [n for n in ast.walk(fi.node) if isinstance(n, ast.Return)]
     out.append(frames.Clause(fi.qualname + '#no_early_exit_from_view_loop', not bad and len(rets) == 1,
-                             'single return after both loops, no break/continue' if not bad and len(rets) == 1 else 'early exits present'))
+                             'single return after both loops, no break/continue' if not bad and len(rets) == 1 else 'early exits present', kind='auxiliary'))
     # the month of a payment is its year-month in every primitive that buckets by month (months, cv, by("month")): one key expression
     EPQ = 'tally.expr_parser.ExpressionContext.'
     for fn, want in (('get_months', {'%Y-%m'}), ('get_cv', {'%Y-%m'}), ('get_by', {'%Y-%m', '%Y', '%Y-%m-%d', '%Y-W%W'})):
